@@ -167,7 +167,7 @@ class ModelMixin(object):
                     yield r
                 return
             if isinstance(c, Bag):
-                yield st, Sym("dyn", smt.fresh("bag_item", smt.Val))
+                yield st, st.alloc(Bag("item"))
                 return
             if isinstance(c, (ArrState, StackState)):
                 for r in self.call_builtin("arr.getitem", st, [o, idx], {}):
@@ -608,12 +608,17 @@ class ModelMixin(object):
                             yield s3, [v] + rest
 
     def _comp_symbolic(self, node, g, elt, st, seq, saved):
-        if seq.tag == "bag":
+        fi0 = self.frames[-1] if self.frames else None
+        has_lc = fi0 is not None and (fi0.key, "comp", self.loop_ordinal("comp", node)) in self.loop_contracts
+        if seq.tag == "bag" or (g.ifs and not has_lc):
             # comprehension over an untracked local container: an untracked container again, provided the element and
             # filter expressions are pure and cannot raise on an arbitrary element
             probe = st.fork()
             outs = []
-            for s1, r in self.assign(g.target, seq.get(smt.fresh("k", z3.IntSort())), probe):
+            kv = smt.fresh("k", z3.IntSort())
+            probe.assume(z3.And(kv >= 0, kv < seq.n))
+            probe.note_k(kv)
+            for s1, r in self.assign(g.target, seq.get(kv), probe):
                 conds = [(s1, True)]
                 for cnd in g.ifs:
                     nxt = []
@@ -631,6 +636,8 @@ class ModelMixin(object):
                 if isinstance(v, Raised):
                     s2.env = dict(saved)
                     yield s2, v
+                elif any(ev[0] in ("effect", "heap-write", "executed", "mutate") for ev in s2.log[len(st.log):]) or s2.heap != st.heap:
+                    raise Unsupported("comprehension with effects over an untracked sequence")
             st.env = dict(saved)
             yield st, st.alloc(Bag("comprehension"))
             return
@@ -668,6 +675,7 @@ class ModelMixin(object):
         kvar = smt.fresh("k", z3.IntSort())
         probe = st.fork()
         probe.assume(z3.And(kvar >= 0, kvar < seq.n))
+        probe.note_k(kvar)
         before = set(probe.store.keys())
         outs = []
         for s1, r in self.assign(g.target, seq.get(kvar), probe):
@@ -686,5 +694,11 @@ class ModelMixin(object):
         for ev in s2.log[len(st.log):]:
             st.log.append(("forall",) + tuple(ev))
         st.env = dict(saved)
-        new = SeqV(seq.n, lambda k, tmpl=tmpl, kvar=kvar: subst_value(tmpl, kvar, k), meta=dict(seq.meta))
+        meta = dict(seq.meta)
+        elem = seq.get(kvar)
+        identity = isinstance(tmpl, Sym) and isinstance(elem, Sym) and tmpl.kind == elem.kind and tmpl.t.eq(elem.t)
+        if not identity:
+            meta.pop("keys_of", None)
+            meta.pop("as_seq", None)
+        new = SeqV(seq.n, lambda k, tmpl=tmpl, kvar=kvar: subst_value(tmpl, kvar, k), tag=seq.tag if identity else None, meta=meta)
         yield st, st.alloc(PyList(seq=new))
